@@ -53,7 +53,7 @@ func TestC15(t *testing.T) {
 	defer m.Done()
 	variant := os.Getenv("VERIF_VARIANT")
 	purego := strings.Contains(variant, "purego")
-	m.Rule("case i = (mode, memory class, lanes, keyLen) taken from a fixed full-cycle enumeration of {argon2i,argon2id} × {m<8p, m multiple of 4p, m not a multiple of 4p, m just above 8p, segment length > 128} × lanes {1,2,3,4,5,8,16} × keyLen {1,4,16,31,32,33,63,64,65,96,97,128,129,300} (pure function of i, so every class is hit whatever the seed), with the seed choosing t in 1..3, the memory value inside its class, password (empty / 1..64 / 200 bytes) and salt (empty / 8 / 16 / 1..64 / 200 bytes); thorough adds lanes {6,7,31,32,64,128,255} and random keyLen 1..300. Each case is run on every block-function path of the build (SSE4.1 and SSE2 fallback in the default build, pure Go in the purego build) and each output is compared with the single-threaded RFC 9106 reference (h/ref/argon2ref); libgcrypt (non-empty pw/salt) and libsodium (1 lane, 16-byte salt, m>=8, keyLen>=16) are computed alongside and must agree with the reference, else the case is inconclusive. For m < 8p the reference uses 8p blocks while hashing the requested m (the property's statement). distinct = (mode, path, memory class, lanes, keyLen class, pw/salt emptiness); every case reaches the oracle, so every case is non-trivial. Password and salt are passed as guarded copies (exact capacity or spare capacity with a sentinel) that must be unchanged afterwards; the last 9 returned keys are kept and re-verified after later calls")
+	m.Rule("case i = (mode, memory class, lanes, keyLen) taken from a fixed full-cycle enumeration of {argon2i,argon2id} × {m<8p, m multiple of 4p, m not a multiple of 4p, m just above 8p, segment length > 128} × lanes {1,2,3,4,5,8,16} × keyLen {1,4,16,31,32,33,63,64,65,96,97,128,129,300} (pure function of i, so every class is hit whatever the seed), with the seed choosing t in 1..3, the memory value inside its class, password (empty / 1..64 / 200 bytes) and salt (empty / 8 / 16 / 1..64 / 200 bytes); thorough adds lanes {6,7,31,32,64,128,255} and random keyLen 1..300. Each case is run on every block-function path of the build (SSE4.1 and SSE2 fallback in the default build, pure Go in the purego build) and each output is compared with the single-threaded RFC 9106 reference (h/ref/argon2ref); libgcrypt (non-empty pw/salt) and libsodium (1 lane, 16-byte salt, m>=8, keyLen>=16) are computed alongside and must agree with the reference, else the case is inconclusive. For m < 8p the reference uses 8p blocks while hashing the requested m (the property's statement). distinct = (mode, path, memory class, lanes, keyLen class, pw/salt emptiness); every case reaches the oracle, so every case is non-trivial. Password and salt are passed as guarded copies (exact capacity or spare capacity with a sentinel) that must be unchanged afterwards; the last 9 returned keys are kept and re-verified after later calls." + concRule)
 	m.Assume("h/ref/argon2ref (own BLAKE2b per RFC 7693, H', G, indexing per RFC 9106 §3) passes the RFC 9106 §5 vectors and the phc-winner-argon2 vectors and agrees with libgcrypt and libsodium in its unit test; libgcrypt GCRY_KDF_ARGON2 passes the same vectors (h/clib/gcryptkdf test)")
 	m.Assume("the Go race detector observes the lane goroutines (registry: race=true); data-race reports are turned into violations by the driver")
 
@@ -274,6 +274,9 @@ func TestC15(t *testing.T) {
 			m.Count("long_pw_or_salt", 1)
 		}
 	})
+
+	nConc := c15Concurrent(m, purego)
+	concGates(m, nConc, true)
 
 	// The documentation states a precondition ("must be greater than zero") but
 	// no behaviour for time=0 / threads=0: observed, not judged.
